@@ -324,6 +324,87 @@ def clause_decimal_window(facts, rep):
     rep.require(n >= 2, 'C04: early-out bounds of DecimalToF64 found: %d (2 expected)' % n)
 
 
+def clause_decimal_sticky(facts, rep):
+    """the big-decimal fallback remembers dropped digits too: in the digit loop of SetDecimal every path on which the
+    current character is a digit either stores it into the digit buffer, sets the truncation flag, or is taken only
+    for '0'.  A non-zero digit skipped without the flag turns a just-above-halfway number of more than 800 digits into
+    an exact tie (round-half-even then rounds it down)."""
+    n = 0
+    for f in facts.functions:
+        if f.short != 'SetDecimal' or 'atof_native' not in f.loc:
+            continue
+        rep.fn(f)
+        heads = [bid for bid, B in f.blocks.items() if B.get('term') and B['term'].get('cls') in ('ForStmt', 'WhileStmt') and B['term'].get('cond') is not None]
+        for h in heads:
+            start = f.blocks[h]['succs'][0]
+            if start is None:
+                continue
+            paths = []
+
+            def is_char(x):
+                return any(y.get('k') == 'sub' for y in walk(x))
+
+            def rec(b, trail, fx):
+                if len(paths) > 400 or len(trail) > 40:
+                    raise AnalysisBroken('C04: digit loop of SetDecimal too large')
+                if b == h:
+                    paths.append((trail, fx))
+                    return
+                B = f.blocks[b]
+                fx = set(fx)
+                for st in B['stmts']:
+                    for y in walk(st):
+                        if y.get('k') == 'bin' and y['op'].endswith('=') and y['op'] not in ('==', '!=', '<=', '>='):
+                            l = strip(y['l'])
+                            if l is not None and l.get('k') == 'sub' and any(z.get('k') == 'member' and z.get('name') == 'd' for z in walk(l)):
+                                fx.add('store')
+                            if l is not None and l.get('k') == 'member' and l.get('name') == 'trunc' and (cval(y['r']) == 1 or y['op'] == '|='):
+                                fx.add('flag')
+                    s_ = strip(st)
+                    if isinstance(s_, dict) and s_.get('k') == 'ret':
+                        return
+                t = B.get('term')
+                succs = B['succs']
+                if t and t.get('cls') == 'BreakStmt':
+                    return
+                if t and t.get('cond') is not None and len(succs) == 2:
+                    c = strip_expect(t['cond'])
+                    neg = False
+                    while c is not None and c.get('k') == 'un' and c['op'] == '!':
+                        neg = not neg
+                        c = strip_expect(c['e'])
+                    for k, x in enumerate(succs):
+                        if x is None or (x != h and x in trail):
+                            continue
+                        fy = set(fx)
+                        sense = (k == 0) != neg
+                        if c is not None and c.get('k') == 'bin' and cval(c['r']) is not None and is_char(c['l']):
+                            cv_, op = cval(c['r']), c['op']
+                            if cv_ == 48 and ((op == '==' and sense) or (op == '!=' and not sense)):
+                                fy.add('zero')
+                            if cv_ == 57 and ((op == '<=' and sense) or (op == '>' and not sense)):
+                                fy.add('le9')
+                            if cv_ == 46 and ((op == '==' and sense)):
+                                fy.add('notdigit')
+                        if c is not None and c.get('k') == 'bin' and cval(c['l']) == 48 and is_char(c['r']) and ((c['op'] == '<=' and sense) or (c['op'] == '>' and not sense)):
+                            fy.add('ge0')
+                        rec(x, trail + [b], fy)
+                    return
+                for x in succs:
+                    if x is not None and (x == h or x not in trail):
+                        rec(x, trail + [b], fx)
+            rec(start, [h], set())
+            dig = [(tr, fx) for tr, fx in paths if {'ge0', 'le9'} <= fx]
+            if not dig or not any(('store' in fx or 'flag' in fx) for _, fx in paths):
+                continue        # not the mantissa loop (the exponent digits are neither stored nor dropped)
+            bad = [tr for tr, fx in dig if not ({'store', 'flag', 'zero'} & fx)]
+            n += 1
+            loc = locline(f.blocks[h]['term']['loc'])
+            rep.check(not bad, 'E2.trunc-set', f.qn, 'digit loop at %s: every digit is stored, sets the truncation flag, or is a 0 (%d digit paths)' % (loc, len(dig)), loc,
+                      'a path through blocks %s skips a digit without setting the truncation flag' % (bad[0] if bad else ''), facts.config)
+    rep.require(n >= 1, 'C04: digit loop of SetDecimal not found')
+
+
 def run(rep, tier):
     configs = ['K1'] if tier == 'quick' else ['K1', 'K3', 'K7']
     for cfg in configs:
@@ -341,6 +422,7 @@ def run(rep, tier):
         clause_j(facts, rep)
         clause_k(facts, rep, tier)
         clause_decimal_window(facts, rep)
+        clause_decimal_sticky(facts, rep)
         # 'rejected with the infinity error': the code set by parseNumber reaches the caller unchanged (shared with C01)
         from . import c01 as _c01
         _c01.clause_first_error(facts, rep)
